@@ -19,6 +19,10 @@
 //   B <hex>                                     raw message bytes instead of Q/R (hand-written wire cases, replays)
 //   C <fn> <mode> <cap>                         call on the intact message
 //   M <fn> <mode> <cap> <trunc:0|1> <nflips>    calls on truncated / byte-mutated copies
+//   O <fn> <mode> <cap>                         allocation-failure sweep of this call on the intact message: the call is
+//                                               repeated with exactly the n-th allocation *of the call* failing, n = 1, 2, ...
+//                                               until a run does not reach its fault index; one line (mut = "oom") whose calls
+//                                               carry "oom": n and "hit": 1 (the n-th allocation was requested and failed) / 0
 //   E
 // values: a=<presentation address>  t/mname/rname/repl=<name>  numbers decimal
 //         hex-encoded: flags svc re tag val uri ; chunks=<hex>,<hex>,... ('-' = empty chunk)
@@ -35,6 +39,7 @@
 #include <map>
 #include <sstream>
 #include <string>
+#include <unordered_set>
 #include <vector>
 
 #include "ares.h"
@@ -47,25 +52,54 @@
 #  endif
 #endif
 
-// ---------------------------------------------------------------- allocation ledger
-static long g_live = 0;
+// ---------------------------------------------------------------- allocation ledger + single-fault injection
+// Only allocation requests made while a legacy parser call is running (PARSE() below) are counted and can be
+// failed: the harness's own use of the library (building / serialising the message, the reference
+// ares_dns_parse, the free functions) is plumbing and never counted.
+static long g_live    = 0;
+static int  g_in_call = 0;   // 1 while a legacy parser call is executing
+static long g_count   = 0;   // allocation requests of the current call
+static long g_fail_at = 0;   // fail exactly this allocation request of the current call (0 = never)
+static int  g_hit     = 0;   // the fault was injected
+static long g_arm     = 0;   // fault index for the next PARSE() (set by the sweep)
+static const char *g_cur_fn = NULL;   // legacy function of the call being executed (for the crash event)
+// In a sweep the blocks allocated by the call are tracked: what is still allocated after the matching free function
+// is reported with the call ("leak") and then released by the harness, so that the process-level signals (ledger
+// at exit, LeakSanitizer) only speak about allocations that no call record accounts for.
+static int                       g_track = 0;
+static std::unordered_set<void *> g_blocks;
+static bool fail_now()
+{
+  if (!g_in_call) return false;
+  g_count++;
+  if (g_fail_at != 0 && g_count == g_fail_at) { g_hit = 1; return true; }
+  return false;
+}
 static void *cnt_malloc(size_t n)
 {
+  if (fail_now()) return NULL;
   void *p = malloc(n ? n : 1);
   if (p) g_live++;
+  if (p && g_track) g_blocks.insert(p);
   return p;
 }
 static void cnt_free(void *p)
 {
   if (p) g_live--;
+  if (p && g_track) g_blocks.erase(p);
   free(p);
 }
 static void *cnt_realloc(void *p, size_t n)
 {
   if (p == NULL) return cnt_malloc(n);
   if (n == 0) { cnt_free(p); return NULL; }
-  return realloc(p, n);
+  if (fail_now()) return NULL;       // the old block stays valid and counted
+  void *q = realloc(p, n);
+  if (q && q != p && g_track && g_blocks.erase(p)) g_blocks.insert(q);
+  return q;
 }
+// the legacy call proper: allocation requests are counted from 1, request g_arm fails
+#define PARSE(expr) do { g_count = 0; g_hit = 0; g_fail_at = g_arm; g_track = g_arm > 0; g_in_call = 1; st = (expr); g_in_call = 0; g_fail_at = 0; } while (0)
 
 // ---------------------------------------------------------------- small helpers
 static FILE *g_out = NULL;
@@ -75,7 +109,10 @@ extern "C" void __sanitizer_set_death_callback(void (*cb)(void));
 static void on_sanitizer_death(void)
 {
   if (g_out) {
-    fprintf(g_out, "{\"e\":\"crash\",\"id\":%ld}\n", g_cur);
+    if (g_arm > 0 && g_cur_fn)
+      fprintf(g_out, "{\"e\":\"crash\",\"id\":%ld,\"fn\":\"%s\",\"oom\":%ld}\n", g_cur, g_cur_fn, g_arm);
+    else
+      fprintf(g_out, "{\"e\":\"crash\",\"id\":%ld}\n", g_cur);
     fflush(g_out);
   }
 }
@@ -179,7 +216,7 @@ struct RRv {
   long long   ttl;
   std::map<std::string, std::string> kv;
 };
-struct Callv { std::string fn, mode; int cap; bool mut; int trunc; int nflips; };
+struct Callv { std::string fn, mode; int cap; bool mut; int trunc; int nflips; bool oom = false; };
 struct Vec {
   long        id = 0;
   std::string qname, qtype;
@@ -411,6 +448,7 @@ static std::string call_legacy(const std::string &fn, const std::string &mode, i
 {
   long        live0 = g_live;
   int         st    = -1;
+  g_cur_fn          = fn.c_str();
   std::string items = "[]";
   std::string host  = "{\"present\":0}";
   long        n     = 0;
@@ -427,11 +465,11 @@ static std::string call_legacy(const std::string &fn, const std::string &mode, i
     unsigned char  *arr       = (unsigned char *)malloc(total * esz);
     memset(arr, FILL, total * esz);
     if (fn == "a")
-      st = ares_parse_a_reply(buf, len, want_host ? &h : NULL, want_ttls ? (struct ares_addrttl *)arr : NULL,
-                              want_ttls ? &cnt : NULL);
+      PARSE(ares_parse_a_reply(buf, len, want_host ? &h : NULL, want_ttls ? (struct ares_addrttl *)arr : NULL,
+                              want_ttls ? &cnt : NULL));
     else
-      st = ares_parse_aaaa_reply(buf, len, want_host ? &h : NULL, want_ttls ? (struct ares_addr6ttl *)arr : NULL,
-                                 want_ttls ? &cnt : NULL);
+      PARSE(ares_parse_aaaa_reply(buf, len, want_host ? &h : NULL, want_ttls ? (struct ares_addr6ttl *)arr : NULL,
+                                 want_ttls ? &cnt : NULL));
     if (want_ttls) {
       n     = cnt;
       guard = all_fill(arr + (size_t)cap * esz, (size_t)GUARD * esz) ? 1 : 0;
@@ -454,20 +492,20 @@ static std::string call_legacy(const std::string &fn, const std::string &mode, i
     free(arr);
   } else if (fn == "ns") {
     struct hostent *h = NULL;
-    st                = ares_parse_ns_reply(buf, len, &h);
+    PARSE(ares_parse_ns_reply(buf, len, &h));
     host              = dump_hostent(h);
     if (h) ares_free_hostent(h);
   } else if (fn == "ptr") {
     struct hostent *h = NULL;
     struct in_addr  a;
     inet_pton(AF_INET, "10.9.8.7", &a);
-    if (mode == "addr") st = ares_parse_ptr_reply(buf, len, &a, (int)sizeof(a), AF_INET, &h);
-    else st = ares_parse_ptr_reply(buf, len, NULL, 0, AF_INET, &h);
+    if (mode == "addr") PARSE(ares_parse_ptr_reply(buf, len, &a, (int)sizeof(a), AF_INET, &h));
+    else PARSE(ares_parse_ptr_reply(buf, len, NULL, 0, AF_INET, &h));
     host = dump_hostent(h);
     if (h) ares_free_hostent(h);
   } else if (fn == "mx") {
     struct ares_mx_reply *l = NULL;
-    st                      = ares_parse_mx_reply(buf, len, &l);
+    PARSE(ares_parse_mx_reply(buf, len, &l));
     items                   = "[";
     for (struct ares_mx_reply *p = l; p; p = p->next, n++) {
       if (n) items += ",";
@@ -477,7 +515,7 @@ static std::string call_legacy(const std::string &fn, const std::string &mode, i
     if (l) ares_free_data(l);
   } else if (fn == "srv") {
     struct ares_srv_reply *l = NULL;
-    st                       = ares_parse_srv_reply(buf, len, &l);
+    PARSE(ares_parse_srv_reply(buf, len, &l));
     items                    = "[";
     for (struct ares_srv_reply *p = l; p; p = p->next, n++) {
       if (n) items += ",";
@@ -488,7 +526,7 @@ static std::string call_legacy(const std::string &fn, const std::string &mode, i
     if (l) ares_free_data(l);
   } else if (fn == "uri") {
     struct ares_uri_reply *l = NULL;
-    st                       = ares_parse_uri_reply(buf, len, &l);
+    PARSE(ares_parse_uri_reply(buf, len, &l));
     items                    = "[";
     for (struct ares_uri_reply *p = l; p; p = p->next, n++) {
       if (n) items += ",";
@@ -499,7 +537,7 @@ static std::string call_legacy(const std::string &fn, const std::string &mode, i
     if (l) ares_free_data(l);
   } else if (fn == "naptr") {
     struct ares_naptr_reply *l = NULL;
-    st                         = ares_parse_naptr_reply(buf, len, &l);
+    PARSE(ares_parse_naptr_reply(buf, len, &l));
     items                      = "[";
     for (struct ares_naptr_reply *p = l; p; p = p->next, n++) {
       if (n) items += ",";
@@ -511,7 +549,7 @@ static std::string call_legacy(const std::string &fn, const std::string &mode, i
     if (l) ares_free_data(l);
   } else if (fn == "caa") {
     struct ares_caa_reply *l = NULL;
-    st                       = ares_parse_caa_reply(buf, len, &l);
+    PARSE(ares_parse_caa_reply(buf, len, &l));
     items                    = "[";
     for (struct ares_caa_reply *p = l; p; p = p->next, n++) {
       if (n) items += ",";
@@ -524,7 +562,7 @@ static std::string call_legacy(const std::string &fn, const std::string &mode, i
     if (l) ares_free_data(l);
   } else if (fn == "txt") {
     struct ares_txt_reply *l = NULL;
-    st                       = ares_parse_txt_reply(buf, len, &l);
+    PARSE(ares_parse_txt_reply(buf, len, &l));
     items                    = "[";
     for (struct ares_txt_reply *p = l; p; p = p->next, n++) {
       if (n) items += ",";
@@ -535,7 +573,7 @@ static std::string call_legacy(const std::string &fn, const std::string &mode, i
     if (l) ares_free_data(l);
   } else if (fn == "txt_ext") {
     struct ares_txt_ext *l = NULL;
-    st                     = ares_parse_txt_reply_ext(buf, len, &l);
+    PARSE(ares_parse_txt_reply_ext(buf, len, &l));
     items                  = "[";
     for (struct ares_txt_ext *p = l; p; p = p->next, n++) {
       if (n) items += ",";
@@ -547,7 +585,7 @@ static std::string call_legacy(const std::string &fn, const std::string &mode, i
     if (l) ares_free_data(l);
   } else if (fn == "soa") {
     struct ares_soa_reply *s = NULL;
-    st                       = ares_parse_soa_reply(buf, len, &s);
+    PARSE(ares_parse_soa_reply(buf, len, &s));
     items                    = "[";
     if (s) {
       n = 1;
@@ -563,7 +601,16 @@ static std::string call_legacy(const std::string &fn, const std::string &mode, i
   }
   o = "{\"fn\":" + jstr(fn) + ",\"mode\":" + jstr(mode) + ",\"cap\":" + num(cap) + ",\"st\":" + jstr(stname(st)) +
       ",\"items\":" + items + ",\"n\":" + num(n) + ",\"guard\":" + num(guard) + ",\"host\":" + host +
-      ",\"leak\":" + num(g_live - live0) + "}";
+      ",\"leak\":" + num(g_live - live0);
+  if (g_arm > 0) {
+    o += ",\"oom\":" + num(g_arm) + ",\"hit\":" + num(g_hit) + ",\"allocs\":" + num(g_count);
+    g_track = 0;
+    std::vector<void *> left(g_blocks.begin(), g_blocks.end());
+    g_blocks.clear();
+    for (void *p : left) cnt_free(p);      // reported above as "leak"; released here
+  }
+  o += "}";
+  g_cur_fn = NULL;
   return o;
 }
 
@@ -584,10 +631,38 @@ static void run_bytes(const Vec &v, const std::string &mut, const std::vector<un
   line += ",\"calls\":[";
   bool first = true;
   for (const Callv &c : calls) {
-    if (c.mut != mutated) continue;
+    if (c.mut != mutated || c.oom) continue;
     if (!first) line += ",";
     first = false;
     line += call_legacy(c.fn, c.mode, c.cap, buf, (int)b.size());
+  }
+  line += "]}\n";
+  fputs(line.c_str(), g_out);
+  free(buf);
+}
+
+// allocation-failure sweep of one call on the intact bytes: one ndjson line, one call entry per fault index
+static const long OOM_MAX_INDEX = 20000;
+static void run_oom(const Vec &v, const std::vector<unsigned char> &b, const Callv &c)
+{
+  unsigned char *buf = (unsigned char *)malloc(b.size() ? b.size() : 1);
+  if (!b.empty()) memcpy(buf, b.data(), b.size());
+  ares_dns_record_t *rec = NULL;
+  ares_status_t      pst = ares_dns_parse(buf, b.size(), 0, &rec);
+  std::string        line = "{\"e\":\"msg\",\"id\":" + num(v.id) + ",\"mut\":\"oom\",\"len\":" + num((long long)b.size()) +
+                     ",\"ok\":" + num(pst == ARES_SUCCESS ? 1 : 0) + ",\"pst\":" + jstr(stname((int)pst));
+  if (pst == ARES_SUCCESS) line += ",\"rec\":" + dump_rec(rec);
+  ares_dns_record_destroy(rec);
+  line += ",\"calls\":[";
+  for (long n = 1;; n++) {
+    if (n > OOM_MAX_INDEX) { fprintf(stderr, "harness: allocation sweep of vector %ld does not end\n", v.id); exit(3); }
+    g_arm = n;
+    std::string out = call_legacy(c.fn, c.mode, c.cap, buf, (int)b.size());
+    int hit = g_hit;
+    g_arm = 0;
+    if (n > 1) line += ",";
+    line += out;
+    if (!hit) break;        // the call made fewer than n allocation requests: every index has been failed
   }
   line += "]}\n";
   fputs(line.c_str(), g_out);
@@ -614,10 +689,13 @@ static void run_vec(const Vec &v, uint64_t seed)
   bool any_plain = false, any_mut = false, trunc = false;
   int  nflips = 0;
   for (const Callv &c : v.calls) {
+    if (c.oom) continue;
     if (c.mut) { any_mut = true; trunc = trunc || c.trunc; if (c.nflips > nflips) nflips = c.nflips; }
     else any_plain = true;
   }
   if (any_plain) run_bytes(v, "none", bytes, v.calls, false);
+  for (const Callv &c : v.calls)
+    if (c.oom) run_oom(v, bytes, c);
   if (any_mut) {
     if (trunc) {
       for (size_t l = 0; l < bytes.size(); l++) {
@@ -690,6 +768,10 @@ int main(int argc, char **argv)
       v.rrs.push_back(r);
     } else if (tok[0] == "C" && tok.size() >= 4) {
       v.calls.push_back(Callv{tok[1], tok[2], atoi(tok[3].c_str()), false, 0, 0});
+    } else if (tok[0] == "O" && tok.size() >= 4) {
+      Callv c{tok[1], tok[2], atoi(tok[3].c_str()), false, 0, 0};
+      c.oom = true;
+      v.calls.push_back(c);
     } else if (tok[0] == "M" && tok.size() >= 6) {
       v.calls.push_back(Callv{tok[1], tok[2], atoi(tok[3].c_str()), true, atoi(tok[4].c_str()), atoi(tok[5].c_str())});
     } else if (tok[0] == "E") {
